@@ -88,6 +88,9 @@ public:
     /// report a violation of class cls for the current case; the case is abandoned at the end of the current step
     void viol(const char *cls, const char *fmt, ...) __attribute__((format(printf, 3, 4)));
     bool violated() const { return violated_; }
+    /// operation-level trace record (only when the case has trace=1)
+    void trace(const char *fmt, ...) __attribute__((format(printf, 2, 3)));
+    bool tracing() const { return tracing_; }
 
     /// suppresses yielding while harness bookkeeping touches atomics (RAII)
     struct Quiet {
@@ -126,6 +129,7 @@ private:
     uint64_t steps_ = 0, preemptions_ = 0, switches_ = 0, schedHash_ = 0, statesHash_ = 0, stepLimit_ = 0;
     bool violated_ = false, quiet_ = false, crashFired_ = false, hitLimit_ = false;
     int violCount_ = 0;
+    bool tracing_ = false;
     friend struct Quiet;
 };
 
